@@ -12,7 +12,7 @@ func init() {
 	registerProperty(&PropertyInfo{
 		ID:    "C05",
 		Title: "Concurrent batches are linearizable; readers see a prefix of that order",
-		Rules: []string{"C05.R1", "C05.R2", "C05.R3", "C02.R3", "C04.R4"},
+		Rules: []string{"C05.R1", "C05.R2", "C05.R3", "C02.R3", "C02.R8", "C04.R4"},
 		Decides: "the serialisation skeleton linearizability rests on: Writer.root is swapped only by functions that run in the single introducer goroutine, before any goroutine is started, or after all of them were waited for; the three introduction channels are received from in exactly one function, started by exactly one go statement; in the function that applies a batch, the obsoletions applied to each CURRENT root element are the optimistic ones looked up by that element's id or, on a lookup miss, recomputed with DocsMatchingTerms on that element, and a recomputation failure publishes nothing; every path of the apply function closes the applied channel exactly once, after the root swap unless an error was sent; swap and reader acquisition are atomic with respect to rootLock (C02.R3, C04.R4).",
 		NotCovered: "linearizability of recorded histories (runtime); fairness of the select; the content of the segments.",
 	})
